@@ -1,6 +1,6 @@
 import XfabVerif.Model.Reduce
 /-! line protocol: `<uvw> <g00> <g11> <g22> <g12> <g02> <g01>`   (metric tensor entries as `num/den` or `num`)
-    -> `ok sel=<v1>;<v2>;<v3> det=<det M> true=<six num/den> coded=<six num/den> adm=<sel>|<sel>|…`
+    -> `ok sel=<v1>;<v2>;<v3> det=<det M> ball=<true|false: Reduce.ballCheck, the certified search-range test> true=<six num/den> coded=<six num/den> adm=<sel>|<sel>|…`
          sel   : canonical outcome (stable sort), each vector `u,v,w`
          true  : `M G Mᵀ` as `g00 g11 g22 g12 g02 g01`
          coded : what the code returns: `a'² b'² c'²  sgn·cos²α' sgn·cos²β' sgn·cos²γ'` (exact)
@@ -34,7 +34,7 @@ def step (line : String) : String :=
         match select g uvw with
         | none => "none"
         | some s =>
-          s!"ok sel={showSel s} det={s.det} true={showQs (trueGram g s)} coded={showQs (coded g s)} adm={"|".intercalate ((admissible g uvw).map showSel)}"
+          s!"ok sel={showSel s} det={s.det} ball={ballCheck g uvw s} true={showQs (trueGram g s)} coded={showQs (coded g s)} adm={"|".intercalate ((admissible g uvw).map showSel)}"
     | _, _ => "bad"
   | _ => "bad"
 
